@@ -15,16 +15,22 @@ struct ChecksumService {
     vtrace::ckin().push_back({name, vtrace::hex(d.data(), d.size())});
     vtrace::ev("cksum_in");
     uint32_t crc = 0xffffffffu;
-    uint8_t sum = 0;
+    uint32_t sum = 0;
+    uint8_t x = 0;
     for (uint8_t b : d) {
-      sum = static_cast<uint8_t>(sum + b);
+      sum += b;
+      x ^= b;
       crc ^= b;
       for (int i = 0; i < 8; i++) crc = (crc & 1) ? (crc >> 1) ^ 0xedb88320u : crc >> 1;
     }
     crc = ~crc;
-    if (name == "SUM8") return static_cast<T>(sum);
+    if (name == "SUM8") return static_cast<T>(sum & 0xffu);
+    if (name == "Xor8") return static_cast<T>(x);
     if (name == "CRC16") return static_cast<T>(crc & 0xffffu);
+    if (name == "Add16") return static_cast<T>(sum & 0xffffu);
     if (name == "CRC32") return static_cast<T>(crc);
+    if (name == "Mix32") return static_cast<T>(crc ^ 0x5a5a5a5au);
+    if (name == "Mix64") return static_cast<T>(((static_cast<uint64_t>(crc) << 32) | static_cast<uint64_t>(crc)) ^ 0x0123456789abcdefull);
     return static_cast<T>((static_cast<uint64_t>(crc) << 32) | static_cast<uint64_t>(crc ^ 0xffffffffu));
   }
 };
@@ -34,12 +40,13 @@ class ChecksumServiceContext {
   static ChecksumServiceContext& instance() { static ChecksumServiceContext c; return c; }
   template <typename B, typename T>
   const ChecksumService<B, T>* get(const std::string& name) {
-    bool ok = (name == "SUM8" && sizeof(T) == 1) || (name == "CRC16" && sizeof(T) == 2) || (name == "CRC32" && sizeof(T) == 4) || (name == "CRC64" && sizeof(T) == 8);
-    if (!ok || !std::is_unsigned_v<T>) return nullptr;
-    static ChecksumService<B, T> s8{"SUM8"}, s16{"CRC16"}, s32{"CRC32"}, s64{"CRC64"};
-    if (name == "SUM8") return &s8;
-    if (name == "CRC16") return &s16;
-    if (name == "CRC32") return &s32;
-    return &s64;
+    // names are case-sensitive: exactly these eight are registered, each for the unsigned type of its width
+    static const char* names[8] = {"SUM8", "Xor8", "CRC16", "Add16", "CRC32", "Mix32", "CRC64", "Mix64"};
+    static const size_t widths[8] = {1, 1, 2, 2, 4, 4, 8, 8};
+    static ChecksumService<B, T> svc[8] = {{"SUM8"}, {"Xor8"}, {"CRC16"}, {"Add16"}, {"CRC32"}, {"Mix32"}, {"CRC64"}, {"Mix64"}};
+    if (!std::is_unsigned_v<T>) return nullptr;
+    for (int i = 0; i < 8; i++)
+      if (name == names[i] && sizeof(T) == widths[i]) return &svc[i];
+    return nullptr;
   }
 };
